@@ -47,7 +47,7 @@ def _delivery(ch):
 def generate(seed, index, tier):
     ch = core.Chooser(seed)
     heavy = index % 5 == 0
-    doc = gd.gen_doc(ch, max_elems=ch.int(3, 12), max_depth=3, use_heavy=heavy)
+    doc = gd.gen_doc(ch, max_elems=ch.int(3, 12), max_depth=3, use_heavy=heavy, extra_kinds=index % 3 == 1)
     st = index % 24
     case = {"faults": []}
     if st == 23:
